@@ -1609,6 +1609,12 @@ class SimKernel:
             if self._denied(p):
                 self._effect("set_denied", pid, p)
                 raise self._err(errno.EPERM)
+            if self.cfg.get("no_cap_sys_resource") and \
+                    limits[1] > old[1]:
+                # raising the hard limit needs CAP_SYS_RESOURCE; lowering
+                # it or moving the soft limit below it does not
+                self._effect("set_denied", pid, p)
+                raise self._err(errno.EPERM)
             self._effect("prlimit", pid, p, value=(res, limits))
             p.rlimits[res] = limits
             self.bump()
